@@ -78,6 +78,8 @@ pub struct TransferInspector {
     frames: Vec<Vec<Debit>>,
     pub surviving: Vec<Debit>,
     depth: usize,
+    /// address owning each open frame (None for create frames, whose address is not known here)
+    owners: Vec<Option<Address>>,
 }
 
 fn is_delegated<CTX: ContextTr>(ctx: &mut CTX, a: Address) -> (bool, U256) {
@@ -93,6 +95,9 @@ fn is_delegated<CTX: ContextTr>(ctx: &mut CTX, a: Address) -> (bool, U256) {
 impl<CTX: ContextTr> Inspector<CTX> for TransferInspector {
     fn call(&mut self, ctx: &mut CTX, inputs: &mut CallInputs) -> Option<CallOutcome> {
         let mut recs = Vec::new();
+        if std::env::var("VERIF_TRACE").is_ok() {
+            eprintln!("   call depth={} caller={} target={} value={:?} scheme={:?}", self.depth, inputs.caller, inputs.target_address, inputs.value, inputs.scheme);
+        }
         // the top-level transaction value is excluded by the rule
         if self.depth > 0 && inputs.transfers_value() && inputs.caller != inputs.target_address {
             let v = inputs.value.get();
@@ -104,12 +109,14 @@ impl<CTX: ContextTr> Inspector<CTX> for TransferInspector {
             }
         }
         self.frames.push(recs);
+        self.owners.push(Some(inputs.target_address));
         self.depth += 1;
         None
     }
 
     fn call_end(&mut self, _ctx: &mut CTX, _inputs: &CallInputs, outcome: &mut CallOutcome) {
         self.depth -= 1;
+        self.owners.pop();
         let recs = self.frames.pop().unwrap_or_default();
         if outcome.result.result.is_ok() {
             match self.frames.last_mut() {
@@ -128,12 +135,14 @@ impl<CTX: ContextTr> Inspector<CTX> for TransferInspector {
             }
         }
         self.frames.push(recs);
+        self.owners.push(None);
         self.depth += 1;
         None
     }
 
     fn create_end(&mut self, _ctx: &mut CTX, _inputs: &CreateInputs, outcome: &mut CreateOutcome) {
         self.depth -= 1;
+        self.owners.pop();
         let recs = self.frames.pop().unwrap_or_default();
         if outcome.result.result.is_ok() {
             match self.frames.last_mut() {
@@ -144,6 +153,18 @@ impl<CTX: ContextTr> Inspector<CTX> for TransferInspector {
     }
 
     fn selfdestruct(&mut self, contract: Address, target: Address, value: U256) {
+        if std::env::var("VERIF_TRACE").is_ok() {
+            eprintln!("   selfdestruct contract={contract} target={target} value={value}");
+        }
+        // revm's inspector glue derives these arguments from the LAST journal entry; for a
+        // SELFDESTRUCT that is a no-op (Cancun: beneficiary == self, account not created in this
+        // transaction) that entry is an unrelated earlier transfer. Only accept a report about the
+        // account that owns the executing frame.
+        if let Some(Some(owner)) = self.owners.last() {
+            if *owner != contract {
+                return;
+            }
+        }
         // the executing account's whole balance leaves it; delegation is decided afterwards
         if contract != target && !value.is_zero() {
             if let Some(cur) = self.frames.last_mut() {
@@ -267,6 +288,12 @@ pub fn check_reserve(sc: &Scenario, m: &Materialised, txs: &[TxEnv], seq: &Grevm
                     stats.delegated_debit_txs += 1;
                 }
                 let same = results_equal(&off.result, res_on) && compare_delta(&delta_off, &delta_on).is_ok();
+                if std::env::var("VERIF_TRACE").is_ok() {
+                    eprintln!("tx {i}: surviving={:?} first={first:?} violation={violation} same={same}", insp.surviving);
+                    for (a, _) in &first {
+                        eprintln!("   {a}: required_after={} final={:?}", required_after(txs, i, *a), off.state.get(a).map(|x| x.info.balance));
+                    }
+                }
                 if same {
                     if violation {
                         return Err(format!("tx {i}: the reserve rule is violated (model) but grevm executed the transaction as if the policy were off"));
